@@ -341,6 +341,13 @@ func (c *FConn) Cut() {
 	}
 }
 
+// PeerClosed reports whether the other end has closed (orderly or abruptly): after draining, reads fail.
+func (c *FConn) PeerClosed() bool {
+	c.rd.mu.Lock()
+	defer c.rd.mu.Unlock()
+	return c.rd.wclosed || c.rd.broken
+}
+
 // Closed reports whether Close was called on this end.
 func (c *FConn) Closed() bool { return c.isClosed() }
 
